@@ -114,6 +114,9 @@ def _is_basic_index(idx, fa=None):
     return False
 
 
+from .webs import display as _display
+
+
 class Effect:
     def __init__(self, node, kind, target, origins, fresh, stmt):
         self.node = node          # the AST node performing the effect
@@ -144,6 +147,22 @@ class FuncAccess(MustFlow):
         self.is_method = fi.cls is not None and fi.params[:1] == ['self']
         self.bindings = {}        # name -> list of value expressions (may)
         self.elem_bindings = {}   # name -> list of iterables it ranges over
+        # the bindings are keyed by name and flow-insensitive: analyse a copy in which unrelated
+        # reuses of one local name are separate variables (rsx/webs.py); effects and queries are
+        # mapped back to the nodes of fi.node
+        self._o2c, self._c2o = {}, {}
+        import copy as _copy
+        from .webs import split_webs
+        cp = _copy.deepcopy(fi.node)
+        if split_webs(cp):
+            a, b = list(ast.walk(fi.node)), list(ast.walk(cp))
+            if len(a) == len(b):
+                for x, y in zip(a, b):
+                    self._o2c[id(x)] = y
+                    self._c2o[id(y)] = x
+                proxy = _copy.copy(fi)
+                proxy.node = cp
+                self.fi = proxy
         self._collect_bindings()
         self.effects = []
         self._cur_stmt = None
@@ -223,6 +242,7 @@ class FuncAccess(MustFlow):
         """Set of origin tuples.  First component: 'self', 'param:<n>', 'cached:<fn>',
         'call:<fn>', 'new:<Class>', 'fresh', 'global:<n>', 'unknown'."""
         _seen = _seen if _seen is not None else set()
+        expr = self._o2c.get(id(expr), expr)
         if isinstance(expr, ast.Name):
             n = expr.id
             if n in _seen:
@@ -295,14 +315,14 @@ class FuncAccess(MustFlow):
                              ast.SetComp, ast.DictComp, ast.GeneratorExp, ast.JoinedStr,
                              ast.Lambda, ast.Slice)):
             return {('fresh',)}
-        return {('unknown', ntext(expr))}
+        return {('unknown', _display(ntext(expr)))}
 
     def _call_origins(self, call, _seen):
         name = call_name(call)
         last = name.split('.')[-1]
         if isinstance(call.func, ast.Attribute):
             if last in CACHED_CALLS:
-                return {('cached:' + ntext(call),)}
+                return {('cached:' + _display(ntext(call)),)}
             if last in COPYING_METHODS:
                 return {('fresh',)}
             if last in VIEW_METHODS:
@@ -323,7 +343,20 @@ class FuncAccess(MustFlow):
                 return self.origins(call.args[0], _seen) | {('fresh',)}
             if call.func.id in FRESH_BUILTINS:
                 return {('fresh',)}
-            return {('call:' + name,)}
+            out = {('call:' + name,)}
+            # a module-level function that may hand back one of its arguments (check_numeric returns the
+            # array it was given): the result may be that argument
+            for p in _returned_params(self.repo, r):
+                arg = None
+                if p in r.params and r.params.index(p) < len(call.args) and \
+                        not any(isinstance(a, ast.Starred) for a in call.args):
+                    arg = call.args[r.params.index(p)]
+                for k in call.keywords:
+                    if k.arg == p:
+                        arg = k.value
+                if arg is not None:
+                    out |= self.origins(arg, _seen)
+            return out
         return {('call:' + name,)}
 
     def _ctor_field(self, origin, attr, _seen):
@@ -538,11 +571,39 @@ class FuncAccess(MustFlow):
     def _emit(self, node, kind, target, state):
         fresh = self.is_fresh(target, state)
         rebound = frozenset(f[1] for f in state if f[0] == 'rebound')
-        self.effects.append(Effect(node, kind, target, self.origins(target, None, rebound), fresh,
-                                   self._cur_stmt))
+        o = self._c2o
+        self.effects.append(Effect(o.get(id(node), node), kind, o.get(id(target), target),
+                                   self.origins(target, None, rebound), fresh,
+                                   o.get(id(self._cur_stmt), self._cur_stmt)))
+
+    def bindings_of(self, name_node):
+        """the (may) value expressions of the variable a Name node of fi.node denotes"""
+        n = self._o2c.get(id(name_node), name_node)
+        return self.bindings.get(n.id, []) if isinstance(n, ast.Name) else []
 
 
 _cache = {}
+_ret_cache = {}
+
+
+def _returned_params(repo, callee):
+    """parameters of a module-level function that some return statement may return (as the object itself)"""
+    from .loader import FuncInfo
+    if not isinstance(callee, FuncInfo) or callee.cls is not None:
+        return ()
+    key = (id(repo), callee.fq)
+    if key in _ret_cache:
+        return _ret_cache[key]
+    _ret_cache[key] = ()             # recursion guard
+    fa = access(repo, callee)
+    out = set()
+    for n in walk_no_nested(fa.fi.node):
+        if isinstance(n, ast.Return) and n.value is not None:
+            for o in fa.origins(n.value):
+                if len(o) == 1 and o[0].startswith('param:'):
+                    out.add(o[0][6:])
+    _ret_cache[key] = tuple(sorted(out))
+    return _ret_cache[key]
 
 
 def access(repo, fi):
